@@ -3,7 +3,7 @@
 import json, os, sys
 sys.path.insert(0, os.path.dirname(os.path.abspath(__file__)))
 import driver
-from props import PROPS, HOOK_COMMITS
+from props import PROPS, HOOK_COMMITS, READY
 
 VERIF = driver.VERIF
 
@@ -18,7 +18,7 @@ def main():
     checks, na = [], []
     for pid in ids:
         info = PROPS.get(pid, {})
-        if pid in claimed and not info.get('not_applicable'):
+        if pid in claimed and pid in READY and not info.get('not_applicable'):
             has_thorough = any(h.tier == 'thorough' for h in claimed[pid])
             c = {
                 'property_id': pid,
